@@ -64,7 +64,10 @@ def _fill_glyph(glyph, gspec):
     _draw(glyph, gspec)
     for a in gspec.get("anchors", ()):
         if hasattr(glyph, "appendAnchor"):
-            glyph.appendAnchor({"name": a[0], "x": a[1], "y": a[2]})
+            d = {"name": a[0], "x": a[1], "y": a[2]}
+            if len(a) > 3:  # (name, x, y, identifier): objects referred to from public.objectLibs
+                d["identifier"] = a[3]
+            glyph.appendAnchor(d)
     for k, v in (gspec.get("lib") or {}).items():
         glyph.lib[k] = copy.deepcopy(v)
     if "verticalOrigin" in gspec:
